@@ -68,6 +68,7 @@ class LP_Solver:
         """
 
         self.info_string = ''
+        self.num_solves = 0
         self.solver = pulp.PULP_CBC_CMD(
             msg=msg, 
             timeLimit=timeLimit, 
@@ -80,7 +81,9 @@ class LP_Solver:
 
         self.run_optimisations(self.optimisation_options)
 
-        if len(self.optimisation_options) == 0:
+        # Solve once if no optimisation performed a solve (no optimisations, or
+        # generous / greedy on an instance without any ranked project).
+        if self.num_solves == 0:
             self.prob.solve(self.solver)
 
         self.model.info_string = self.info_string
@@ -502,6 +505,7 @@ class LP_Solver:
 
         '''
 
+        self.num_solves += 1
         if optimisation_type == Optimisation_type.MAXIMISE:
             self.prob.objective = objective_function
             self.prob.solve(self.solver)
